@@ -272,7 +272,7 @@ func runC12(c *drv.Ctx) error {
 					}
 				}
 				if ev := res[ci][hi]; ev != nil && len(c.Violations) == 0 {
-					v := shrinkHist(c, cs, h, ev)
+					v := shrinkHist(c, "C12", cs, h, ev)
 					c.AddViolation(*v)
 				}
 			}
@@ -288,7 +288,7 @@ func runC12(c *drv.Ctx) error {
 	return nil
 }
 
-func shrinkHist(c *drv.Ctx, cs *lab.Case, h []proto.Step, ev *histEval) *drv.Violation {
+func shrinkHist(c *drv.Ctx, prop string, cs *lab.Case, h []proto.Step, ev *histEval) *drv.Violation {
 	deadline := time.Now().Add(time.Duration(c.Pick(60, 180)) * time.Second)
 	cc := *cs
 	cc.Hist = nil
@@ -303,8 +303,20 @@ func shrinkHist(c *drv.Ctx, cs *lab.Case, h []proto.Step, ev *histEval) *drv.Vio
 	}
 	for rounds := 0; rounds < 30 && time.Now().Before(deadline); rounds++ {
 		var cands []*histReplay
-		// drop one step (never the last)
-		for i := 0; i+1 < len(cur.Steps); i++ {
+		// keep only the tail; drop chunks; drop one step (never the last)
+		n := len(cur.Steps)
+		for _, k := range []int{1, 2, 3} {
+			if k < n {
+				cands = append(cands, &histReplay{Case: cur.Case, Steps: cur.Steps[n-k:], Mode: cur.Mode})
+			}
+		}
+		for size := (n - 1) / 2; size >= 2; size /= 2 {
+			for lo := 0; lo+size <= n-1; lo += size {
+				st := append(append([]proto.Step{}, cur.Steps[:lo]...), cur.Steps[lo+size:]...)
+				cands = append(cands, &histReplay{Case: cur.Case, Steps: st, Mode: cur.Mode})
+			}
+		}
+		for i := 0; i+1 < len(cur.Steps) && len(cur.Steps) <= 12; i++ {
 			st := append(append([]proto.Step{}, cur.Steps[:i]...), cur.Steps[i+1:]...)
 			cands = append(cands, &histReplay{Case: cur.Case, Steps: st, Mode: cur.Mode})
 		}
@@ -380,7 +392,7 @@ func shrinkHist(c *drv.Ctx, cs *lab.Case, h []proto.Step, ev *histEval) *drv.Vio
 		steps = append(steps, fmt.Sprintf("%s(%q)", cur.Case.G.Rules[s.Entry].Name, string(s.Input)))
 	}
 	desc := fmt.Sprintf("%s\n--- minimal history [%s]: %s ---\n%s", what, modeKey(cur.Mode), strings.Join(steps, "; "), strings.TrimSpace(cur.Case.G.String()))
-	return &drv.Violation{Property: "C12", Kind: "lab-hist", What: desc, Case: cur}
+	return &drv.Violation{Property: prop, Kind: "lab-hist", What: desc, Case: cur}
 }
 
 func init() {
